@@ -307,7 +307,16 @@ def run (st : St) (args : List Str) (impl : String) : St × String × String × 
       let (r3, c3, s3) := StoreMap.exec s2 a (.update good false)
       let (r4, c4, s4) := StoreMap.exec s3 (a ++ str ".2") (.create good false)
       let kept := (aget s3.vals a) == (aget s1.vals a) && (aget s1.vals a).isSome
-      let o := s!"create={cls r1} update-named={cls r2} update-string={cls r3} value={if kept then encField (str "{\"a\":1}") else "changed"} create-named={cls r4} exists={encBool (aget s4.vals (a ++ str ".2")).isSome} cbs={(c1 ++ c2 ++ c3 ++ c4).length}"
+      -- the listener-less store: delete (missing), create, create (duplicate), delete, delete (missing), update (missing)
+      let quiet := Id.run do
+        let mut st : StoreMap.St Val := ⟨[], false, false⟩
+        let mut outs : List String := []
+        for op in [StoreMap.Op.delete, .create good true, .create good true, .delete, .delete, .update good true] do
+          let (r, _, st') := StoreMap.exec st a op
+          st := st'
+          outs := outs ++ [cls r]
+        return ",".intercalate outs
+      let o := s!"create={cls r1} update-named={cls r2} update-string={cls r3} value={if kept then encField (str "{\"a\":1}") else "changed"} create-named={cls r4} exists={encBool (aget s4.vals (a ++ str ".2")).isSome} cbs={(c1 ++ c2 ++ c3 ++ c4).length} quiet={quiet}"
       (st, o, o, "untyped")
     else if c = str "slow" then (st, "ok", "-", "triv-slow")
     else if c = str "delete" then
